@@ -10,6 +10,8 @@ def declare(c):
     c.rule('C09.R1', 'result of handleGcode on every abstract path is None, IGNORE or a non-empty list of '
                      'non-empty commands', floor=40)
     c.rule('C09.R3', 'no abstract path of a hook entry point ends in an exception', floor=40)
+    c.rule('C09.R4', 'the retraction record keeps its representation invariant on every path (firmware <=> no length / feed '
+                     'rate): later handlers rely on it when they do arithmetic on those fields', floor=10)
 
 
 def path_rules(col, gcode, paths, I):
@@ -25,6 +27,35 @@ def path_rules(col, gcode, paths, I):
                        'handleGcode(%s) can raise %s on the path [%s]' % (gcode, r.exc, '; '.join(f.decisions()[-8:])),
                        line=where[1], detail={'entry': p.entry, 'decisions': f.decisions()})
             continue
+        from .values import Obj, Num, Choice, NONE as _NONE
+        for o in f.final('H.state', 'lastRetraction'):
+            if not isinstance(o, Obj):
+                continue
+            col.instance('C09.R4', (gcode, o.oid.split('#')[0]))
+            fwkey = ('fld', o.oid, 'firmwareRetract')
+            for fw in live_alts(p.st, p.st.heap.get((o.oid, 'firmwareRetract'))):
+                if fw not in (True, False):
+                    continue
+                # when the flag is still the initial (undecided) one, evaluate the other fields under the same assumption
+                assume = {fwkey: frozenset([fw])} if p.st.dom.get(fwkey) is None else None
+                for attr in ('extrusionAmount', 'feedRate'):
+                    val = p.st.heap.get((o.oid, attr))
+                    if val is None:
+                        # never read or written on this path: still the initial value, which follows the INITIAL flag
+                        init = p.st.dom.get(fwkey, frozenset([True, False]))
+                        fwval = p.st.heap.get((o.oid, 'firmwareRetract'))
+                        flag_rewritten = any(e[0] == 'write' and e[4] == o.oid and e[2] == 'firmwareRetract' for e in p.st.trace)
+                        if not flag_rewritten:
+                            continue
+                        val = Choice([({fwkey: frozenset([True])}, _NONE), ({fwkey: frozenset([False])}, Num.const(1))])
+                        assume = None
+                    for x in live_alts(p.st, val, assume):
+                        if (x is _NONE) != fw:
+                            col.report('C09.R4', 'RetractionState.combine' if 'combine' in str([e for e in p.st.trace if e[0] == 'call' and e[2] == 'combine']) else 'ExcludeRegionState.recordRetraction',
+                                       'retraction record with firmwareRetract=%s and %s=%s' % (fw, attr, 'None' if x is _NONE else 'a number'),
+                                       'a path of %s leaves the retraction record in a state no constructor allows; a later recovery '
+                                       'does arithmetic on the missing value and raises TypeError' % gcode,
+                                       detail={'entry': p.entry, 'decisions': f.decisions()})
         col.instance('C09.R1', sig)
         ok = f.kind in ('none', 'ignore')
         why = ''
